@@ -104,3 +104,5 @@ func EvLogon(rel int, abs int, reset string) *Event {
 }
 
 func EvRestart() *Event { return &Event{K: "restart", Name: "restart"} }
+
+func EvTick() *Event { return &Event{K: "tick", Name: "tick"} }
